@@ -187,6 +187,58 @@ func genHandover(r *run.R, i int, perPeer, fd int) *scenario {
 	return sc
 }
 
+// genLateJoin: one worker kept alive by an anchor caller waiting on a slow address while the peerstore
+// learns further addresses; later callers (with wider address sets) join that worker, are answered by a
+// higher-ranked address before the lower-ranked ones are due, the conns are closed, and more callers
+// arrive while the anchor dial is still pending.
+func genLateJoin(r *run.R, i int, perPeer, fd int) *scenario {
+	rng := r.Rand(52, uint64(i))
+	pool := swarmrig.Pool(64)
+	sc := &scenario{ID: fmt.Sprintf("latejoin/pp%d-fd%d/%d", perPeer, fd, i), Staggered: rng.IntN(2) == 0, PerPeer: perPeer, FDLimit: fd}
+	var must []addrSpec
+	for _, a := range universe(rng, pool.ID[relayPeerIdx], sc.Staggered) {
+		if a.Class == "must" {
+			must = append(must, a)
+		}
+	}
+	for len(must) < 3 {
+		must = nil
+		for _, a := range universe(rng, pool.ID[relayPeerIdx], sc.Staggered) {
+			if a.Class == "must" {
+				must = append(must, a)
+			}
+		}
+	}
+	t1 := []int{100000, 300000}[rng.IntN(2)]
+	for k := range must {
+		a := &must[k]
+		a.Late, a.Prog = false, rng.IntN(4) == 0
+		if k == 0 { // the anchor
+			a.AddAt = 0
+			a.Script = []string{"fail", "hang"}[rng.IntN(2)]
+			a.DelayU = []int{5000000, 9000000, 16000000}[rng.IntN(3)]
+		} else {
+			a.AddAt = t1
+			a.Script = []string{"ok", "ok", "fail"}[rng.IntN(3)]
+			a.DelayU = []int{0, 1000, 249000, 251000}[rng.IntN(4)]
+		}
+		if sc.Staggered {
+			a.DelayU += 7
+		}
+	}
+	sc.Addrs = must
+	sc.Callers = append(sc.Callers, caller{AtU: 0, CancelU: -1})
+	sc.Callers = append(sc.Callers, caller{AtU: t1 + 1000, CancelU: -1, Sim: rng.IntN(5) == 0})
+	if rng.IntN(3) > 0 {
+		sc.CloseAtU = append(sc.CloseAtU, []int{1000500, 1500500}[rng.IntN(2)])
+	}
+	n := 1 + rng.IntN(2)
+	for k := 0; k < n; k++ {
+		sc.Callers = append(sc.Callers, caller{AtU: 2000000 + 1000*k, CancelU: -1, Force: rng.IntN(4) == 0, Sim: rng.IntN(5) == 0})
+	}
+	return sc
+}
+
 func gen(r *run.R, i int, perPeer, fd int) *scenario {
 	rng := r.Rand(5, uint64(i))
 	pool := swarmrig.Pool(64)
@@ -700,6 +752,9 @@ func TestC05(t *testing.T) {
 			sc := gen(r, ci*1000000+i, cf.perPeer, cf.fd)
 			if i%4 == 3 {
 				sc = genHandover(r, ci*1000000+i, cf.perPeer, cf.fd)
+			}
+			if i%8 == 5 {
+				sc = genLateJoin(r, ci*1000000+i, cf.perPeer, cf.fd)
 			}
 			if !r.Want(sc.ID) || r.TooMany() {
 				return
